@@ -43,6 +43,14 @@ if TYPE_CHECKING:
 __all__ = ["validate_input_literal", "validate_input_value"]
 
 
+def error_text(error: Exception) -> str:
+    """Get the text of an error, also if converting it to a string fails."""
+    try:
+        return str(error)
+    except Exception:  # noqa: BLE001
+        return f"<{error.__class__.__name__}>"
+
+
 OnErrorCB = Callable[[GraphQLError, "list[str | int]"], None]
 
 
@@ -205,7 +213,7 @@ def validate_input_value_impl(
                 on_error,
                 f"Expected value of type '{type_}'"
                 + (
-                    f", but encountered error '{caught_error}'; found"
+                    f", but encountered error '{error_text(caught_error)}'; found"
                     if caught_error is not None
                     else ", found"
                 )
@@ -485,7 +493,7 @@ def validate_input_literal_impl(
                 context.on_error,
                 f"Expected value of type '{type_}'"
                 + (
-                    f", but encountered error '{caught_error}'; found"
+                    f", but encountered error '{error_text(caught_error)}'; found"
                     if caught_error is not None
                     else ", found"
                 )
